@@ -602,9 +602,9 @@ def rule_facade(rep, db):
         guarded(rep, "FACADE", "operator-/%s|%s" % ("iterator" if is_diff else "n", facade_tag(fn)), fn, f)
     for fn in db.fns("fcppt::iterator::base::operator!="):
         def f(fn=fn):
-            cfg2 = sx.Config(inline_prefixes=("fcppt::cast::static_downcast",), ref_writes=True)
+            cfg2 = sx.Config(inline_prefixes=("fcppt::cast::static_downcast", "fcppt::iterator::base::get"), ref_writes=True)
             v, ev = single(db, cfg2, fn)
-            ok = len(ev) == 1 and ev[0][0].split("<")[0].endswith("base::operator==") and \
+            ok = len(ev) == 1 and (ev[0][0].split("<")[0].endswith("base::operator==") or ev[0][0].split("<")[0].split("::")[-1] == "equal") and \
                 [unwrap_derefs(strip(a)) for a in ev[0][1]] == [THIS, ("sym", fn["params"][0]["name"])] and \
                 isinstance(v, tuple) and v[0] == "not" and strip(v[1])[0] == "ev"
             return None if ok else "operator!= is not !(*this == other): %s" % sx.show(v)
@@ -614,7 +614,9 @@ def rule_facade(rep, db):
             v, ev = single(db, cfg, fn)
             e = [prim(ev, i) for i in range(len(ev))]
             a, b = ("sym", fn["params"][0]["name"]), ("sym", fn["params"][1]["name"])
-            ok = e == [("distance_to", [a, b])] and isinstance(v, tuple) and v[0] == "cmp" and v[1] == ">" and strip(v[2])[0] == "ev" and v[3] == ("k", "0")
+            pos = isinstance(v, tuple) and v[0] == "cmp" and (
+                (v[1] == ">" and strip(v[2])[0] == "ev" and v[3] == ("k", "0")) or (v[1] == "<" and v[2] == ("k", "0") and strip(v[3])[0] == "ev"))
+            ok = e == [("distance_to", [a, b])] and pos
             return None if ok else "a < b is not a.distance_to(b) > 0: %s" % sx.show(v)
         guarded(rep, "FACADE", "operator<|" + facade_tag(fn), fn, f)
     # >, <=, >= written in terms of the other relational operators: truth table over the three orders of (left, right)
